@@ -2,6 +2,7 @@ pub mod c01;
 pub mod c02;
 pub mod c03;
 pub mod c04;
+pub mod c05;
 pub mod c07;
 pub mod c08;
 pub mod c09;
@@ -21,6 +22,7 @@ pub fn plan(prop: &str, tier: &str) -> Option<u64> {
         "C02" => c02::plan(tier),
         "C03" => c03::plan(tier),
         "C04" => c04::plan(tier),
+        "C05" => c05::plan(tier),
         "C07" => c07::plan(tier),
         "C08" => c08::plan(tier),
         "C09" => c09::plan(tier),
@@ -41,6 +43,7 @@ pub fn run_case(prop: &str, tier: &str, seed: u64, idx: u64) -> CaseOut {
         "C02" => c02::run_case(tier, seed, idx),
         "C03" => c03::run_case(tier, seed, idx),
         "C04" => c04::run_case(tier, seed, idx),
+        "C05" => c05::run_case(tier, seed, idx),
         "C07" => c07::run_case(tier, seed, idx),
         "C08" => c08::run_case(tier, seed, idx),
         "C09" => c09::run_case(tier, seed, idx),
